@@ -42,8 +42,9 @@ Flush(n) == IF accepted + n <= failAt THEN [acc |-> accepted + n, ok |-> TRUE]
 \* error indicator is set, and a tested call abandons the current input file with a diagnostic; the failure is
 \* remembered (exit status 1) and the next input file is listed
 NextFile(k) == (CHOOSE b \in bounds : b >= k /\ \A c \in bounds : c >= k => b <= c) + 1
+\* (a chunk of size 0 stands for an fflush() call in the middle of the output: it writes the buffer out whatever its fill)
 CPut == /\ st = "writing" /\ i <= Len(chunks) /\ IsC
-        /\ IF buf + chunks[i] > cap
+        /\ IF buf + chunks[i] > cap \/ (chunks[i] = 0 /\ buf > 0)
            THEN LET f == Flush(buf) IN
                 /\ accepted' = f.acc
                 /\ IF f.ok THEN buf' = chunks[i] /\ UNCHANGED <<bad, exit, diag, st>> /\ i' = i + 1
